@@ -2473,14 +2473,16 @@ fast_bilinear_cover_iter_init (pixman_iter_t *iter, const pixman_iter_info_t *it
     return;
 
 fail:
-    /* Something went wrong, either a bad matrix or OOM; in such cases,
-     * we don't guarantee any particular rendering.
+    /* Something went wrong, either a bad matrix or OOM: leave the
+     * scanline to the general bits-image fetcher, which needs no
+     * line buffers (a no-op fetcher here would composite whatever the
+     * scanline buffer happens to hold).
      */
     _pixman_log_error (
-	FUNC, "Allocation failure or bad matrix, skipping rendering\n");
+	FUNC, "Allocation failure or bad matrix, using the general fetcher\n");
     
-    iter->get_scanline = _pixman_iter_get_scanline_noop;
     iter->fini = NULL;
+    _pixman_bits_image_src_iter_init (iter->image, iter);
 }
 
 static uint32_t *
